@@ -422,7 +422,12 @@ def substitute_type_args(etype, type_map,
     }
     type_con = perform_type_substitution(
         etype.t_constructor, new_type_map, cond)
-    return ParameterizedType(type_con, type_args)
+    new_type = ParameterizedType(type_con, type_args)
+    # As in TypeConstructor.new(): the type constructor of the new type must
+    # keep the declared supertypes, so that re-instantiating it later (e.g.,
+    # to_variance_free()) substitutes the new type arguments again.
+    new_type.t_constructor.supertypes = etype.t_constructor.supertypes
+    return new_type
 
 
 def substitute_type(t, type_map):
